@@ -187,6 +187,9 @@ class HistogramBase(abc.ABC):
         _FREQUENCY_SUPPORTED_DTYPES
     )
 
+    __array_priority__ = 1000
+    """Make numpy scalars/arrays on the left of an operator defer to the histogram (c * h == h * c)."""
+
     @property
     def default_axis_names(self) -> List[str]:
         """Axis names to be used when an instance does not define them."""
